@@ -12,3 +12,5 @@ import RagcModel.Model.Pipeline
 import RagcModel.Model.Packs
 import RagcModel.Model.Agc3
 import RagcModel.Model.Fasta
+import RagcModel.Model.FileIO
+import RagcModel.Model.Cli
